@@ -183,6 +183,10 @@ func init() {
 		return Not(Eq(sv.Fields[fieldIndex(ex.urlType(), "Scheme")].(*Term), StrLit("")))
 	})
 	reg("(*net/url.URL).Query", func(ex *Exec, fn *ssa.Function, a []Value) Value {
+		if rqv, ok := ex.urlStruct(a[0]).Fields[fieldIndex(ex.urlType(), "RawQuery")].(*Term); ok && rqv.IsLit() {
+			q, _ := url.ParseQuery(rqv.S)
+			return ex.valuesFromHost(q)
+		}
 		if ex.realBody("url.Query") {
 			return ex.callBody(fn, a)
 		}
@@ -239,7 +243,9 @@ func init() {
 		return UF("values.enc", SSeq, args...)
 	})
 	reg("net/url.ParseQuery", func(ex *Exec, fn *ssa.Function, a []Value) Value {
-		if ex.realBody("url.ParseQuery") {
+		if ls, ok := termLitString(a[0].(*Term)); ok {
+			a = []Value{StrLit(ls)}
+		} else if ex.realBody("url.ParseQuery") {
 			return ex.callBody(fn, a)
 		}
 		s := a[0].(*Term)
